@@ -98,6 +98,9 @@ def _only_feeds_raise(f, call):
     return True
 
 
+NONLINEAR_OPS = {"clamp", "clamp_min", "clamp_max", "clip", "abs", "relu", "sign", "heaviside", "maximum", "minimum", "where", "exp", "log", "sqrt", "pow", "square"}
+
+
 def check(ctx):
     P = ctx.prog
     # ---------------- closure
@@ -235,6 +238,28 @@ def check(ctx):
         br = [x for x in ast.walk(loop) if isinstance(x, ast.Call) and dotted(x.func) == "state.batchreduce"]
         ok = bool(br) and all(len(x.args) == 2 and isinstance(x.args[1], ast.Constant) and x.args[1].value == 0 for x in br)
         ctx.ob("C11.d", f"{f.short}: batch reduction = state.batchreduce(., 0)", ok, f"{len(br)} calls", f.where)
+        # what happens to a batch-reduced quantity afterwards is linear (sums, differences, negation, scaling): a clamp / abs /
+        # sign split applied *after* the batch reduction lets samples of opposite sign cancel first, so a sum-reduced batched
+        # step is no longer the sum of the per-sample steps
+        env_ = {}
+        for st_ in ast.walk(loop):
+            if isinstance(st_, ast.Assign) and len(st_.targets) == 1 and isinstance(st_.targets[0], ast.Name):
+                env_.setdefault(st_.targets[0].id, []).append(st_.value)
+
+        def reduced(e, depth=0):
+            """e (or a local it is computed from) contains a batch reduction"""
+            for y in ast.walk(e):
+                if isinstance(y, ast.Call) and isinstance(y.func, ast.Attribute) and "batchreduce" in y.func.attr:
+                    return True
+                if isinstance(y, ast.Name) and depth < 3 and any(reduced(d, depth + 1) for d in env_.get(y.id, [])):
+                    return True
+            return False
+        for x in [x for x in ast.walk(loop) if isinstance(x, ast.Call) and isinstance(x.func, ast.Attribute) and x.func.attr in NONLINEAR_OPS]:
+            operands = ([x.func.value] if dotted(x.func.value) not in ("torch", "F") else []) + list(x.args)
+            hit = [o for o in operands if reduced(o)]
+            ctx.ob("C11.d", f"{f.short}: `{ast.unparse(x)[:50]}` is applied per sample (before the batch reduction)", not hit,
+                   "" if not hit else f"`{x.func.attr}` acts on `{ast.unparse(hit[0])[:40]}`, which is already reduced over the batch: contributions of different samples "
+                   f"cancel before the split, so with batch_reduction=sum the step differs from the sum of the per-sample steps", P.loc(f, x), x)
         for x in [x for x in ast.walk(loop) if isinstance(x, ast.Call) and dotted(x.func) == "ein.einsum"]:
             pat = [a.value for a in x.args if isinstance(a, ast.Constant) and isinstance(a.value, str)]
             ok = pat == ["b ... r, b ... r -> b ..."]
@@ -267,3 +292,5 @@ def check(ctx):
     ctx.require("C11.e", "adaptive neuron classes", nad, 4)
     ctx.assume("operations not in the axis-mixing table are element-wise or per-sample (F.linear, F.unfold/fold, torch.matmul with an unbatched left operand, view(-1, *shape))")
     ctx.assume("user-supplied transforms / combine functions / kernels are batch-pointwise")
+    # ---------------- (f) resizing the batch resets the per-sample state (shared with C14.c)
+    ctx.import_clauses("C14", {"C14.c"}, "C11.f", pick=lambda s: "batchsz" in s, minimum=2)
